@@ -37,6 +37,8 @@ Array::Array(const Array &other)
 {}
 
 void Array::copyData(const Array &other) {
+    // assigning an array to itself changes nothing (Variable::set frees the old value before it copies)
+    if (&other == this) return;
     for (size_t i = 0; i < data.size() && i < other.data.size(); i++) {
         data[i]->set(&other.data[i]->get<PSC::Value>(), true);
     }
